@@ -186,6 +186,10 @@ def check_case(case):
             return base + np.timedelta64(int(v), "s")
 
         inp = np.array([mk(v) for v in x], dtype="datetime64[ns]")
+        if case.get("carrier") in ("list_dt64s", "tuple_dt64s", "nd_dt64s"):
+            # the instants as np.datetime64 scalars / array in SECONDS (NaT for missing) against a span in nanoseconds
+            vals_s = [np.datetime64("NaT", "s") if v == "NaT" else (np.datetime64(alpha.T0, "s") + np.timedelta64(int(v), "s")) for v in x]
+            inp = {"list_dt64s": list, "tuple_dt64s": tuple, "nd_dt64s": lambda a: np.array(a, dtype="datetime64[s]")}[case["carrier"]](vals_s)
         span = (mk(case["lo"]), mk(case["hi"]))
         kw = {}
         if case["incl"] is not None:
@@ -300,5 +304,8 @@ def run_task(task, acc):
                     for incl in INCL:
                         for x in series:
                             yield dict(fn="valid_dt", x=x, lo=lo, hi=hi, incl=None if incl is None else list(incl))
+                            if 0 < len(x) <= 6:
+                                for carrier in ("list_dt64s", "tuple_dt64s", "nd_dt64s"):
+                                    yield dict(fn="valid_dt", x=x, lo=lo, hi=hi, incl=None if incl is None else list(incl), carrier=carrier)
 
         run_cases(acc, gen(), check_case)
